@@ -32,7 +32,7 @@ import traceback
 
 VERIF = os.path.dirname(os.path.dirname(os.path.abspath(__file__)))
 PY = sys.executable
-KNOWN_FINDINGS = os.path.join(VERIF, "known_findings.json")
+KNOWN_FINDINGS = os.environ.get("VERIF_KNOWN_FINDINGS") or os.path.join(VERIF, "known_findings.json")
 
 
 def load_check(prop):
@@ -95,6 +95,7 @@ def engine(prop, seed, tier, mode, nruns, wall, workers, first_run=0):
     JSON-able partial result"""
     mod = load_check(prop)
     t0 = time.time()
+    known_keys = {k["key"] for k in load_known() if k.get("status") == "known" and k["property"] == prop}
     agg = {"runs": 0, "evals": 0, "events": 0, "stats": collections.Counter(), "traces": set(),
            "violations": [], "harness_errors": [], "samples": [], "mode": mode, "wall_hit": False}
     batch = max(1, min(getattr(load_check(prop), "BATCH", 8), nruns // (workers * 4) or 1))
@@ -145,12 +146,13 @@ def engine(prop, seed, tier, mode, nruns, wall, workers, first_run=0):
                     if r.get("harness_error"):
                         agg["harness_errors"].append("run %d: %s" % (r["run"], r["harness_error"]))
                     for v in r["violations"]:
-                        if len(agg["violations"]) < 400:
+                        if len(agg["violations"]) < 400 or v["key"] not in known_keys:
                             agg["violations"].append({"run": r["run"], "violation": v, "plan": r["plan"]})
                     if "plan_sample" in r and len(agg["samples"]) < 3:
                         agg["samples"].append(r.get("sample") or r["plan_sample"])
-            # stop early once plenty of violations are known
-            if len(agg["violations"]) < 50:
+            # stop early once plenty of violations are collected (listed known findings do not count, so that they
+            # cannot starve the search for anything else)
+            if sum(1 for v in agg["violations"] if v["violation"]["key"] not in known_keys) < 50:
                 submit_more()
     agg["stats"] = dict(agg["stats"])
     agg["traces"] = sorted(agg["traces"])
